@@ -42,8 +42,8 @@ def make_records(segs, walks, rnd, blank_names=False):
             uni = "\u00e9" if wi % 3 == 1 else ""
             tail = "\tzd:Z:a\u00f1b" if wi % 3 == 2 else ("\tzl:Z:x\u2028y\x1cz" if wi % 7 == 3 else "")      # (line-boundary look-alikes are data)
             pre = ["q", "q", "@q", "#q", "7"][wi % 5]          # read names are free text (FASTQ-style '@', '#', leading digit)
-            if blank_names and wi % 4 == 1:                     # GraphAligner keeps the FASTQ comment: a blank inside column 1 (index only:
-                pre = "run7 ch=5 " + pre                        # re-emitting commands cut the name at the blank)
+            if blank_names and wi % 4 == 1:                     # GraphAligner keeps the FASTQ comment: a blank inside column 1
+                pre = pre + f"{wi}x ch=5 "                      # (re-emitting commands cut the name at the blank: the part before it is unique)
             lines.append(f"{pre}{wi}{uni}_{ps}_{pe}\t{L + 2}\t1\t{L + 1}\t+\t{path}\t{plen}\t{ps}\t{pe}\t{a}\t{L}\t{(ps * 7 + pe) % 61}\ttp:A:P\tcg:Z:{cg}\tNM:i:3{tail}")
     rnd.shuffle(lines)
     return lines
@@ -58,6 +58,9 @@ def positions(out_text, ref_lines):
     idx = {}
     for k, l in enumerate(ref_lines):
         idx.setdefault(l, k + 1)
+        name, tab, rest = l.partition("\t")
+        if " " in name:      # documented: a re-emitted record carries the read name cut at its first blank
+            idx.setdefault(name.split(" ")[0] + tab + rest, k + 1)
     return [idx.get(l, 0) for l in lines_of(out_text)]
 
 
@@ -127,10 +130,22 @@ def run_session(job):
                 g["ln"] *= scale
         gfa = os.path.join(d, "g.gfa" + (".gz" if gfa_gz else ""))
         write_text(gfa, gfa_text(segs, st["links"]), "gz" if gfa_gz else "plain")
-        ulines = make_records(segs, st["walks"], rnd, blank_names=(mode == "C03"))
+        ulines = make_records(segs, st["walks"], rnd, blank_names=True)
+        if ulines and zlib.crc32(("long" + sid).encode()) % 5 == 0:
+            # one record longer than 64 KiB (a noisy long read with a huge CIGAR-like field): lines have no maximal length
+            f0 = ulines[0].split("\t")
+            ulines.append("\t".join(["long" + f0[0]] + f0[1:] + ["zz:Z:" + "p" * 70000, "zy:i:7"]))
         ext = ".gz" if bgzf else ""
         U = os.path.join(d, "u.gaf" + ext)
-        write_text(U, join_lines(ulines, sid), storage, block=opts.get("block", 300))
+        if zlib.crc32(("lnk" + sid).encode()) % 4 == 2:
+            # the GAF named on the command line is a symbolic link to the file (kept elsewhere under another name): indexes
+            # and other derived files belong next to the NAME the user gave
+            os.makedirs(os.path.join(d, "store"), exist_ok=True)
+            real = os.path.join(d, "store", "run42.alignments" + ext)
+            write_text(real, join_lines(ulines, sid), storage, block=opts.get("block", 300))
+            os.symlink(real, U)
+        else:
+            write_text(U, join_lines(ulines, sid), storage, block=opts.get("block", 300))
         cases = []
         # whole-file conversions (also the reference for --format selections)
         cs = os.path.join(d, "conv_s.gaf")
@@ -271,7 +286,7 @@ def run_mode(ctx, mode):
                 continue
             k += 1
             sid = f"{cfg[10:-4]}-{k}"
-            jobs.append((sid, st, mode, "bgzf" if k % 2 else "plain", k % 3 == 0, ctx.seed * 7919 + k, {"flagdir": flagdir, "scale": 7 if k % 5 == 0 else 1}))
+            jobs.append((sid, st, mode, "bgzf" if k % 2 else "plain", k % 3 == 0, ctx.seed * 7919 + k, {"flagdir": flagdir, "scale": 7 if k % 5 == 0 else (9000 if k % 10 == 2 else 1)}))
     if ctx.thorough and len(jobs) > 6000:
         rnd = random.Random(ctx.seed)
         jobs = rnd.sample(jobs, 6000)
